@@ -7,6 +7,7 @@ same shape the explicit `match` / loop form produces, so that the rules see one 
   map_or(o, d, C)        -> phi(d | C(o.Some.0))
   map_or_else(o, D, C)   -> phi(D() | C(o.Some.0))
   unwrap_or(o, d)        -> phi(d | o.Some.0)
+  Result::map(r, C)      -> phi(Ok(C(r.Ok.0)) | r)
   unwrap_or_default(o)   -> phi(<default> | o.Some.0)
   copied / cloned (o)    -> o
   Fn::call(C, (a, b))    -> C(a, b)           (C a closure aggregate)
@@ -107,6 +108,13 @@ def normalize(w, e, depth=0):
             body = apply_closure(w, a[1], [some_payload(o)], depth + 1)
             if body is not None:
                 return ("call", x[1], (o, ("applied", body)), None, "map")
+        if name == "map" and len(a) == 2 and a[1][0] == "agg" and a[1][1] == "closure" and "Result" in x[1]:
+            # Result::map(r, C) = match r { Ok(v) => Ok(C(v)), Err(e) => Err(e) }
+            o = normalize(w, a[0], depth + 1)
+            okv = ("field", ("downcast", o, "Ok"), "0", "std::result::Result")
+            body = apply_closure(w, a[1], [okv], depth + 1)
+            if body is not None:
+                return ("phi", (("agg", "adt", "std::result::Result::Ok", (body,), ("0",)), o))
         if name in ("call", "call_mut", "call_once") and len(a) == 2 and a[0][0] == "agg" and a[0][1] == "closure":
             args = list(a[1][3]) if a[1][0] == "agg" and a[1][1] == "tuple" else [a[1]]
             body = apply_closure(w, a[0], [normalize(w, y, depth + 1) for y in args], depth + 1)
